@@ -7,7 +7,7 @@ import numpy as np
 from hypothesis import strategies as st
 
 from .. import gen, model
-from ..core import Ctx, Violation, call, check, per_shard, run_given
+from ..core import Ctx, Violation, call, check, per_shard, run_given, given_part, machine_part, run_parts
 
 PID = "C01"
 LEVEL = "exploration"
@@ -447,13 +447,8 @@ def replay(ctx: Ctx, case):
 
 def run(ctx: Ctx):
     q = ctx.tier == "quick"
-    if q:
-        if not run_given(ctx, "roundtrip", cases(4, 6), check_roundtrip, per_shard(ctx, 4400), batch=100):
-            return
-        run_given(ctx, "cli-meta", cli_meta_cases(), check_cli_meta, per_shard(ctx, 160), batch=20)
-    else:
-        if not run_given(ctx, "cli-meta", cli_meta_cases(), check_cli_meta, per_shard(ctx, 4000), batch=50):
-            return
-        if not run_given(ctx, "roundtrip", cases(4, 6), check_roundtrip, per_shard(ctx, 90000), batch=200):
-            return
-        run_given(ctx, "roundtrip-large", cases(8, 8), check_roundtrip, per_shard(ctx, 40000), batch=200)
+    parts = [given_part(ctx, "cli-meta", cli_meta_cases(), check_cli_meta, per_shard(ctx, 160 if q else 4000), batch=20 if q else 50),
+             given_part(ctx, "roundtrip", cases(4, 6), check_roundtrip, per_shard(ctx, 4400 if q else 90000), batch=100 if q else 200)]
+    if not q:
+        parts.append(given_part(ctx, "roundtrip-large", cases(8, 8), check_roundtrip, per_shard(ctx, 40000), batch=200))
+    run_parts(ctx, parts)
